@@ -1231,6 +1231,7 @@ func FieldNameOf(fa *ssa.FieldAddr) string { return fieldName(fa.X.Type(), fa.Fi
 type PathQuery struct {
 	Fn      *ssa.Function
 	From    ssa.Instruction
+	FromBlk *ssa.BasicBlock // alternative start: the beginning of this block
 	Cut     map[[2]*ssa.BasicBlock]bool
 	Barrier func(ssa.Instruction) bool
 }
@@ -1259,6 +1260,10 @@ func (q PathQuery) Reaches(to ssa.Instruction) bool {
 			}
 		}
 		return false
+	}
+	if q.From == nil && q.FromBlk != nil {
+		seen[q.FromBlk] = false
+		return walk(q.FromBlk, 0)
 	}
 	if q.From == nil {
 		if len(q.Fn.Blocks) == 0 {
